@@ -229,6 +229,14 @@ RACES = [
 ]
 
 
+def per_recipient(evs):
+    """recipient -> its notifications in delivery order (payload as a sorted tuple)"""
+    d = {}
+    for e in evs:
+        d.setdefault(e[1], []).append((e[2], e[3], e[4], tuple(sorted(e[5]))))
+    return d
+
+
 def run_races(chk, build, rounds, only=None):
     sel = [r for r in RACES if only is None or r[1] in only]
     if not sel:
@@ -239,7 +247,8 @@ def run_races(chk, build, rounds, only=None):
     for k, line in enumerate(lines):
         name, _, calls, setup, sched, lin = sel[k % len(sel)]
         sch = " ++ ".join(sched)
-        exprs.append(f"view_of {UNIVERSE} (c_pg (crun (fold_left solo_op {ops_term(setup)} (cinit {calls})) ({sch}))) []")
+        exprs.append(f"view_of {UNIVERSE} (c_pg (crun (fold_left solo_op {ops_term(setup)} (cinit {calls})) ({sch}))) "
+                     f"(clog (fold_left solo_op {ops_term(setup)} (cinit {calls})) ({sch}))")
         v = show_term(parse_term(impl[k])[1])
         ops = ops_term(setup + lin)
         exprs.append(f"(check_queries {UNIVERSE} (spec_run {ops}) {v} && check_snapshot {UNIVERSE} (spec_run {ops}) (v_snap {v}))%bool")
@@ -276,7 +285,8 @@ def run_races(chk, build, rounds, only=None):
             bad.append(("999" in show_term(parse_term(impl[k])[1]),
                         "race: zombie / stale index / leaked entry after an exit racing a registration: " + name,
                         "C11 oracle (check_queries, check_snapshot) rejects the final state of the race\n" + desc))
-        elif mv[1:8] != iv[1:8]:   # all query fields and the snapshot; events are not in the micro-step model
+        elif mv[1:8] != iv[1:8] or per_recipient(parse_term(vals[2 * k])[8]) != per_recipient(evs):
+            # all query fields, the snapshot, and for every recipient the SEQUENCE of its notifications
             chk.coverage["disagreements_checked"] += 1
             chk.violation("race: micro-step model and implementation end in different states: " + name,
                           "correspondence E2:pg race differs (oracle accepts)\n" + desc, failing_input=False)
